@@ -38,6 +38,7 @@ pub fn generate(prop: &str, tier: &str, r: &mut Rng, out: &mut Vec<String>) -> G
             short_strings(out, if thorough { &[0, 1, 2, 3, 5, 0x0f, 0x10, 0x13, 0x21, 0x22, 0x34, 0x35, 0x37, 0x4a, 0x4b, 0x80, 0xff] } else { &[0, 3, 0x21, 0x34, 0xff] });
             tag_len_grid(out);
             lang_pairs(out);
+            inflating(out);
             token_sequences(out, if thorough { 5 } else { 4 });
             mutations(out, r, if thorough { 1_000_000 } else { 10_000 });
             for (kind, unit) in FAMILIES {
@@ -56,7 +57,7 @@ pub fn generate(prop: &str, tier: &str, r: &mut Rng, out: &mut Vec<String>) -> G
                 }
             }
             GenInfo {
-                rule: "enumerations: every string of <= 2 bytes after a valid header and 3-byte strings over a tier-dependent third-byte set; every (tag 0x00-0xff) x (length 0-16, 0xffff) x fill through the value decoder and as a one-attribute message (exact and off-by-one declared length); every inner length pair of the with-language syntaxes x total length 0-16; all sequences of <= k tokens over a 16-token alphabet (k=4 quick, 5 thorough); seeded grammar-aware mutations of well-formed messages; structural bombs (10 families, sizes up to 1 MiB) in a child process. Non-trivial = distinct case lines".into(),
+                rule: "enumerations: every string of <= 2 bytes after a valid header and 3-byte strings over a tier-dependent third-byte set; every (tag 0x00-0xff) x (length 0-16, 0xffff) x fill through the value decoder and as a one-attribute message (exact and off-by-one declared length); every inner length pair of the with-language syntaxes x total length 0-16; long runs of non-UTF-8 bytes (21840-65535) in every string-carrying syntax, names included (text that triples when decoded); all sequences of <= k tokens over a 16-token alphabet (k=4 quick, 5 thorough); seeded grammar-aware mutations of well-formed messages; structural bombs (10 families, sizes up to 1 MiB) in a child process. Non-trivial = distinct case lines".into(),
                 exhaustive: false,
             }
         }
